@@ -81,6 +81,8 @@ def load_contracts(src):
         _lzl.make_nostop(src)
         import contracts.foldlemmas as _fl  # lemmas over the Array / Sequence folds; needs the fold definitions registered above
         _fl.install(src)
+        import contracts.prefixedarray as _pa
+        _pa.register_prefixedarray(src)
     import contracts.classes as cc
     gens = cc.generic_contracts(src)
     from contracts.prims import LOOPS
@@ -245,7 +247,7 @@ def do_replay(pid, path, a):
             for i, o in enumerate(vr.obligations):
                 name = driver.ObligationResult(o, q, mname + (',generic' if c.generic else '')).name
                 if stable_key(name) == want and not (o.goal.op == 'bool' and o.goal.args[0] is True):
-                    jobs[i] = (i, prelude.build_query(o.hyps, o.goal), prelude.build_query(o.hyps, o.goal, opaque=True))
+                    jobs[i] = (i, prelude.build_query(o.hyps, o.goal), prelude.pre_query(o))
             if jobs:
                 res = solve.solve_many(list(jobs.values()), timeout=30, tier='quick')
                 vs = sorted({res[i].verdict for i in jobs})
@@ -408,7 +410,8 @@ def verify_generic(src, gen_only, pid, timeout, tier):
             mname = model if variant is None else '%s,%s' % (model, variant)
             if vr.out_of_reach:
                 oors.append((q, mname, vr.out_of_reach))
-                continue
+                if not vr.obligations:
+                    continue
             stats_tot['paths'] += vr.paths
             for ob in vr.obligations:
                 if ob.tags and pid not in ob.tags:
@@ -420,7 +423,7 @@ def verify_generic(src, gen_only, pid, timeout, tier):
                     results.append(r)
                     continue
                 text = prelude.build_query(ob.hyps, ob.goal)
-                jobs.append((len(results), text, prelude.build_query(ob.hyps, ob.goal, opaque=True)))
+                jobs.append((len(results), text, prelude.pre_query(ob)))
                 results.append(r)
     stats_tot['gen_s'] = time.time() - t0
     t1 = time.time()
